@@ -133,6 +133,7 @@ type c07cStep struct {
 	login int
 	user  string // 'S': the name as typed; 'W' / 'D': the table's user
 	pw    int
+	basic bool // 'S': name and password travel in an Authorization: Basic header instead of the form
 }
 
 type c07cLogin struct {
@@ -168,7 +169,11 @@ func c07cDescribe(steps []c07cStep) string {
 	for _, s := range steps {
 		switch s.kind {
 		case 'S':
-			parts = append(parts, fmt.Sprintf("start#%d %s/pw%d", s.login, s.user, s.pw))
+			how := ""
+			if s.basic {
+				how = "(basic-auth)"
+			}
+			parts = append(parts, fmt.Sprintf("start#%d %s/pw%d%s", s.login, s.user, s.pw, how))
 		case 'A':
 			parts = append(parts, fmt.Sprintf("answer#%d", s.login))
 		case 'W':
@@ -200,9 +205,15 @@ func (r *c07cRunner) run(name string, table map[string]int, steps []c07cStep) (s
 			order = append(order, s.login)
 			p := c07cPair{strings.ToLower(s.user), c07cPw(s.pw)}
 			before := be.count(p)
+			basic := s.basic
 			go func() {
 				defer close(l.done)
-				rr, _ := r.e.env.serve(verifNewRequest("POST", proto.LoginPath, url.Values{"username": {l.raw}, "password": {c07cPw(l.pw)}}))
+				req := verifNewRequest("POST", proto.LoginPath, url.Values{"username": {l.raw}, "password": {c07cPw(l.pw)}})
+				if basic {
+					req = verifNewRequest("POST", proto.LoginPath, url.Values{})
+					req.SetBasicAuth(l.raw, c07cPw(l.pw))
+				}
+				rr, _ := r.e.env.serve(req)
 				l.status = rr.Code
 				for _, c := range rr.Result().Cookies() {
 					if c.Name == authCookieName && c.Value != "" {
@@ -544,7 +555,9 @@ func c07ConcurrentLogins(t *testing.T, e *c15Env, res *verifResult, rng *mrand.R
 					cur[u] = p
 				}
 			case c < 6 && next < nl:
-				steps = append(steps, S(next, ls[next].user, ls[next].pw))
+				st := S(next, ls[next].user, ls[next].pw)
+				st.basic = rng.Intn(3) == 0
+				steps = append(steps, st)
 				inflight = append(inflight, next)
 				next++
 			case len(inflight) > 0:
